@@ -174,6 +174,7 @@ macro_rules! scenarios {
             "mem" => $f(&scen::s5_mem::S5, $($arg),*),
             "counters" => $f(&scen::s6_counters::S6, $($arg),*),
             "interleave" => $f(&scen::s7_interleave::S7, $($arg),*),
+            "vecops" => $f(&scen::s8_vecops::S8, $($arg),*),
             "chacha_stream@hosts" => $f(&scen::s3_hosts::Hosts { inner: scen::s1_chacha_stream::S1, name: "chacha_stream@hosts" }, $($arg),*),
             "chacha_block@hosts" => $f(&scen::s3_hosts::Hosts { inner: scen::s2_chacha_block::S2, name: "chacha_block@hosts" }, $($arg),*),
             "hash_stream@hosts" => $f(&scen::s3_hosts::Hosts { inner: scen::s4_hash_stream::S4, name: "hash_stream@hosts" }, $($arg),*),
